@@ -206,6 +206,17 @@ var labels = map[string]string{
 	"mlsw": "triple-quoted-string-with-blank-line", "cstr": "block-with-string-with-empty-line",
 }
 
+// generated block items are named by their header and body codes (spec: BName), e.g. Bif:iwi
+func labelOf(kd string) string {
+	if lab := labels[kd]; lab != "" {
+		return lab
+	}
+	if strings.HasPrefix(kd, "B") {
+		return "generated-block(" + kd[1:] + ")"
+	}
+	return kd
+}
+
 func lineRole(e *Event) string {
 	switch {
 	case e.m == 1:
@@ -231,10 +242,7 @@ func valueClass(u string) string {
 }
 
 func divergenceKey(prev, e *Event, fields []string) string {
-	lab := labels[e.Kd]
-	if lab == "" {
-		lab = e.Kd
-	}
+	lab := labelOf(e.Kd)
 	var parts []string
 	sort.Strings(fields)
 	for _, f := range fields {
@@ -355,10 +363,15 @@ func main() {
 	} else if env.Thorough() {
 		gen("exhaustive3", "gen_quick.cfg", "", 0)
 		gen("exhaustive4core", "gen_thorough.cfg", "", 0)
+		gen("blocks2", "gen_blocks.cfg", "", 0)
 		// -simulate generates num walks per worker; every walk prints exactly one session
 		gen("random6", "gen_sim.cfg", fmt.Sprintf("num=%d", 6000/env.Workers+1), 60)
 	} else {
-		gen("exhaustive3", "gen_quick.cfg", "", 0)
+		// quick: every session of 2 items over the whole fixed alphabet, of 3 items over the core alphabet, and every
+		// generated block item followed by a probe
+		gen("exhaustive2", "gen_dev.cfg", "", 0)
+		gen("exhaustive3core", "gen_core3.cfg", "", 0)
+		gen("blocks-probe", "gen_blocks_quick.cfg", "", 0)
 	}
 	if len(sessions) == 0 {
 		common.Inconclusive("property=C20 no session generated")
@@ -483,10 +496,10 @@ func main() {
 			}
 			key := divergenceKey(prev, e, p.Bad)
 			if e.panic != "" {
-				key = "C20|Feed(" + labels[e.Kd] + lineRole(e) + ")|panic"
+				key = "C20|Feed(" + labelOf(e.Kd) + lineRole(e) + ")|panic"
 			}
 			if len(p.Bad) == 0 {
-				key = "C20|Feed(" + labels[e.Kd] + lineRole(e) + ")|next line cannot follow"
+				key = "C20|Feed(" + labelOf(e.Kd) + lineRole(e) + ")|next line cannot follow"
 			}
 			var fed []string
 			for _, x := range evs[si][:p.L-1] {
@@ -511,7 +524,7 @@ func main() {
 	rep.Extra["lines_fed_to_the_real_repl"] = lines
 	rep.Extra["items_per_kind"] = kindSeen
 	rep.Extra["equivalence_runs"] = map[string]int64{"one_by_one_exec": nOne, "as_file": nFile}
-	rep.Extra["exhaustive_within"] = "every session of <= 3 items (thorough: also <= 4 over the core alphabet) after the initial assignment; longer sessions are a seeded sample"
+	rep.Extra["exhaustive_within"] = "quick: every session of <= 2 items over the fixed alphabet, <= 3 items over the core alphabet, every generated block item (header x body of 1..3 lines over statement / comment / whitespace-only lines) followed by a probe; thorough: <= 3 items over the fixed alphabet, <= 4 over the core alphabet, generated block x core item in both orders; longer sessions are a seeded sample"
 	for i := 0; i < len(sessions) && i < 5; i++ {
 		j := (i * 2477) % len(sessions)
 		rep.Sample(map[string]interface{}{"session": sessions[j].key(), "events": evs[j], "model_final": sessions[j].Final})
